@@ -112,9 +112,8 @@ def _a2(ctx, rep):
             if isinstance(t, ast.UnaryOp):
                 t = t.operand
             if isinstance(t, ast.Compare) and isinstance(t.ops[0], (ast.In, ast.NotIn)):
-                lst = t.comparators[0]
-                if isinstance(lst, ast.Name):
-                    lst = single_defs(opt).get(lst.id, lst)
+                from ..astutil import literal_seq
+                lst = literal_seq(opt, t.comparators[0])
                 if isinstance(lst, (ast.List, ast.Tuple, ast.Set)):
                     accepted = [const(x) for x in lst.elts]
     if not accepted:
@@ -156,31 +155,62 @@ def _a2(ctx, rep):
                   "mode(s) %s are accepted by the option but no branch defines error_value (the previous value would be re-used)" % missing, node=lp)
         if extra:
             rep.info("A2", f, "unreachable modes", "branches for %s can never be selected" % extra)
-        # continue while windowed sum > eps
-        isd = [s for s in lp.body if isinstance(s, ast.Assign) and unparse(s.targets[0]) == "is_doing"]
-        ok, why = False, "no `is_doing` update"
-        vtxt0 = ""
-        if len(isd) == 1:
-            v = isd[0].value
-            cond = v.test if isinstance(v, ast.IfExp) and const(v.body) is True and const(v.orelse) is False else v
-            if isinstance(cond, ast.Compare) and len(cond.ops) == 1:
-                a, b, o = unparse(cond.left), unparse(cond.comparators[0]), cond.ops[0]
-                # the compared quantity is whichever local holds the windowed sum
-                ldefs = {unparse(s_.targets[0]): unparse(s_.value) for s_ in lp.body if isinstance(s_, ast.Assign) and isinstance(s_.targets[0], ast.Name)}
-                if b == "eps" and isinstance(o, ast.Gt) and a in ldefs:
-                    ok, vtxt0 = True, ldefs[a]
-                elif a == "eps" and isinstance(o, ast.Lt) and b in ldefs:
-                    ok, vtxt0 = True, ldefs[b]
-                else:
-                    why = "continues while `%s`; must continue exactly while value > eps" % unparse(cond)
-        if ok:
-            vtxt = vtxt0
-            if vtxt != "np.sum(error_values[-sum_range:])":
-                ok, why = False, "compared quantity is %s, expected the windowed sum np.sum(error_values[-sum_range:])" % vtxt
-        brk = [s for s in lp.body if isinstance(s, ast.If) and unparse(s.test) == "not is_doing" and any(isinstance(x, ast.Break) for x in s.body)]
-        if ok and not brk:
-            ok, why = False, "loop does not leave when is_doing is False"
-        rep.check(ok, "A2", f, "stop test", "continue while windowed sum > eps", why, node=isd[0] if isd else lp)
+        # continue while windowed sum > eps: the loop is left exactly when  value <= eps
+        ldefs = {}
+        for s_ in lp.body:
+            if isinstance(s_, ast.Assign) and len(s_.targets) == 1 and isinstance(s_.targets[0], ast.Name):
+                ldefs.setdefault(s_.targets[0].id, []).append(s_.value)
+        leaves = [s_ for s_ in lp.body if isinstance(s_, ast.If) and any(isinstance(x, ast.Break) for x in s_.body) and not s_.orelse]
+        con = "stop test"
+        if len(leaves) != 1:
+            rep.check(False, "A2", f, con, "", "the loop has %d `if ...: break` exits; expected the one stopping test" % len(leaves), node=lp) if not leaves \
+                else rep.undecided("A2", f, con, "several `if ...: break` exits in the loop body")
+            continue
+
+        def as_leave(e, leave=True, depth=4):
+            """(a, b) with: the loop is left exactly when a <= b;  None if the condition is of another form"""
+            if isinstance(e, ast.UnaryOp) and isinstance(e.op, ast.Not):
+                return as_leave(e.operand, not leave, depth)
+            if isinstance(e, ast.IfExp) and const(e.body) is True and const(e.orelse) is False:
+                return as_leave(e.test, leave, depth)
+            if isinstance(e, ast.IfExp) and const(e.body) is False and const(e.orelse) is True:
+                return as_leave(e.test, not leave, depth)
+            if isinstance(e, ast.Compare) and len(e.ops) == 1 and isinstance(e.comparators[0], ast.Constant) and e.comparators[0].value in (True, False) \
+                    and isinstance(e.ops[0], (ast.Eq, ast.Is)):
+                return as_leave(e.left, leave if e.comparators[0].value else not leave, depth)
+            if isinstance(e, ast.Name) and depth > 0 and len(ldefs.get(e.id, [])) == 1:
+                return as_leave(ldefs[e.id][0], leave, depth - 1)
+            if isinstance(e, ast.Compare) and len(e.ops) == 1:
+                a, b, o = e.left, e.comparators[0], e.ops[0]
+                # condition true <=> ... ; `leave` tells whether the loop is left when it is true
+                if isinstance(o, ast.LtE) and leave:
+                    return a, b
+                if isinstance(o, ast.GtE) and leave:
+                    return b, a
+                if isinstance(o, ast.Gt) and not leave:
+                    return a, b
+                if isinstance(o, ast.Lt) and not leave:
+                    return b, a
+                return ("other", unparse(e), leave)
+            return None
+        r = as_leave(leaves[0].test)
+        if r is None:
+            rep.undecided("A2", f, con, "exit condition `%s` is not a comparison" % unparse(leaves[0].test))
+            continue
+        if len(r) == 3:
+            rep.violation("A2", f, con, "the loop %s when `%s`; it must continue exactly while value > eps"
+                          % ("is left" if r[2] else "continues", r[1]), node=leaves[0])
+            continue
+        a, b = r
+        vt = unparse(a)
+        if isinstance(a, ast.Name) and len(ldefs.get(a.id, [])) == 1:
+            vt = unparse(ldefs[a.id][0])
+        if unparse(b) != "eps":
+            rep.violation("A2", f, con, "the loop is left when %s <= %s; the threshold must be eps" % (unparse(a), unparse(b)), node=leaves[0])
+        elif vt != "np.sum(error_values[-sum_range:])":
+            rep.violation("A2", f, con, "compared quantity is %s, expected the windowed sum np.sum(error_values[-sum_range:])" % vt, node=leaves[0])
+        else:
+            rep.holds("A2", f, con, "continue while windowed sum > eps", node=leaves[0])
 
 
 def _a3(ctx, rep):
